@@ -183,7 +183,14 @@ def programs_noncontig(tier):
         F("e", T_enum(e4), [(8, 2), (62 - 40, 2)]),        # enum over two ranges
         F("s", T_i(8), [(32, 4), (40, 4)]),                # signed non-contiguous
         F("k", T_u(3), [(16, 1), (18, 2)], array=(2, 4)),  # 16,18,19 / 20,22,23
-    ])], props=("C04", "C05", "C08", "C16")))
+    ])], props=("C04", "C05", "C08", "C16", "C03")))
+    progs.append(Program("nc32a", structs=[S("nc32a", 32, [
+        F("x", T_u(8), [(4, 4), (0, 4)], array=(4, 8)),       # array element with a DESCENDING list (high nibble first)
+    ])], props=("C04", "C03", "C16", "C13")))
+    progs.append(Program("nc16a", structs=[S("nc16a", 16, [
+        F("p", T_u(2), [(1, 1), (3, 1)], array=(2, 8)),       # first range not at bit 0: bits 1,3 / 9,11
+        F("q", T_u(3), [(6, 1), (4, 1), (5, 1)], array=(2, 8)),   # shuffled single bits: 6,4,5 / 14,12,13
+    ])], props=("C04", "C03", "C16")))
     progs.append(Program("nc128", structs=[S("nc128", 128, [
         F("t", T_u(12), [(0, 4), (60, 8)]),                # range crossing bit 64
         F("h", T_u(64), [(96, 32), (64, 28), (92, 4)]),    # three ranges, native type, top bit
@@ -260,6 +267,15 @@ def programs_defaults(tier):
     progs.append(Program("df7", structs=[S("df7", 7, [
         F("a", T_u(3), (4, 3)),
     ], default=Default(0x7F, ":"))], props=("C06", "C11", "C13")))
+    progs.append(Program("df72", structs=[S("df72", 72, [
+        F("a", T_u(8), (64, 8)), F("b", T_u(16), (0, 16)),
+    ], default=Default(0xA5_0000_0000_0000_00F0, "=", const_name="DF72_DEFAULT"))], props=("C06", "C11", "C13")))
+    progs.append(Program("df100", structs=[S("df100", 100, [
+        F("a", T_u(36), (64, 36)),
+    ], default=Default((1 << 99) | (1 << 64) | 0x7, ":", const_name="DF100_DEFAULT"))], props=("C06", "C11", "C13")))
+    progs.append(Program("df65", structs=[S("df65", 65, [
+        F("t", T_bool(), (64, 1)),
+    ], default=Default((1 << 64) | 1, "="))], props=("C06", "C11", "C13")))
     progs.append(Program("df64", structs=[S("df64", 64, [F("a", T_u(64), (0, 64))], default=Default(0))], props=("C06", "C13")))
     return progs
 
@@ -467,6 +483,27 @@ def programs_c14(tier):
     return progs
 
 
+def programs_debug(tier):
+    progs = []
+    progs.append(Program("dbg8", structs=[S("dbg8", 8, [
+        F("flag", T_bool(), (0, 1)), F("n", T_u(3), (1, 3)), F("m", T_u(4), (4, 4), access="r")], debug=True)], props=("C19",)))
+    e2 = mk_enum("Edb2", 2, None, values=[0, 1, 3])
+    e1 = mk_enum("Edb1", 1, "true")
+    progs.append(Program("dbg16", enums=[e2, e1], structs=[S("dbg16", 16, [
+        F("s", T_i(8), (0, 8)), F("e", T_enum(e2), (8, 2)), F("x", T_enum(e1), (10, 1)),
+        F("nc", T_u(4), [(13, 2), (11, 2)]), F("t", T_bool(), (15, 1))], debug=True)], props=("C19",)))
+    in4 = Struct("In4d", 4, [F("x", T_u(3), (0, 3)), F("y", T_bool(), (3, 1))], debug=True)
+    progs.append(Program("dbgn", structs=[in4, S("dbgn", 16, [
+        F("inner", FT("nested", 4, in4), (0, 4)), F("b", T_u(8), (4, 8)), F("hi", T_u(3), (13, 3))], debug=True)], props=("C19",)))
+    progs.append(Program("dbg12", structs=[S("dbg12", 12, [
+        F("a", T_u(12), (0, 12))], debug=True)], props=("C19",)))
+    if tier == "thorough":
+        e3 = mk_enum("Edb3", 3, "false", values=[7, 0, 5])
+        progs.append(Program("dbg32", enums=[e3], structs=[S("dbg32", 32, [
+            F("s", T_i(8), (0, 8)), F("h", T_u(16), (8, 16)), F("e", T_enum(e3), (24, 3)), F("q", T_u(5), (27, 5))], debug=True)], props=("C19",)))
+    return progs
+
+
 def all_programs(tier, seed=0):
     progs = []
     progs += programs_contiguous(tier)
@@ -481,6 +518,7 @@ def all_programs(tier, seed=0):
     progs += programs_builder(tier)
     progs += programs_access(tier)
     progs += programs_c14(tier)
+    progs += programs_debug(tier)
     ids = [p.pid for p in progs]
     assert len(ids) == len(set(ids))
     return progs
